@@ -47,6 +47,14 @@ claim("C03", "HIR structural dominance + argument provenance + comparison-role n
       "DIDUrlQuery::matches requires DID equality when present and both fragments equal.",
       "truth of the conjunction on concrete tokens (with C01, C10, C13); first-match semantics of resolve_method.", "DESIGN.md §7 C03")
 
+claim("C19", "MIR who-may-write enumeration of the inner Vec + allowed-primitive table + path-valuation guards + HIR shape of change()/remove()/constructors + serde wiring",
+      "Decides for all operation sequences the per-operation shape the list model depends on: the inner Vec is private and mutated only by append/prepend/change/remove/clear (three reviewed *_mut "
+      "escapes), each using only its allowed Vec primitive (e.g. order-preserving Vec::remove, never swap_remove); push/insert(0) are reachable only on the !contains edge and the refusal path mutates "
+      "nothing, result flags match; contains is key equality over the whole Vec; change() takes the first match, drains index.., keeps !f entries, re-appends them and inserts data at that index; "
+      "replace/update predicates; TryFrom<Vec> rejects on the first refused append, FromIterator keeps first occurrences, serde try_from = Vec<T>; OneOrSetInner is private, Set is built only at "
+      "reviewed sites after len checks, TryFrom<Vec> for OneOrSet goes through the duplicate-checking OrderedSet::try_from, empty sets are rejected on deserialisation; OneOrMany normalisation.",
+      "order/content equality with a list model over whole histories; KeyComparable impls of element types.", "DESIGN.md §7 C19")
+
 for _p, _r in {
     "C01": "rules not yet implemented in this revision (planned, DESIGN §7)", "C02": "rules not yet implemented in this revision",
     "C03": "rules not yet implemented in this revision", "C04": "rules not yet implemented in this revision",
